@@ -155,12 +155,24 @@ class Exec:
                     diff["derive:" + tmpl["op"] + "." + n] = [_lookup(outs[0][1], n), _lookup(outs[1][1], n)]
         else:  # pair_basic
             self.ctr.inc("pair_basics")
-            def both(label, fa, fb, want=None):
-                ra = _try(fa)
-                rb = _try(fb)
-                if ra != rb or (want is not None and ra[0] == "ok" and ra[1] != want):
-                    diff[label] = [ra, rb]
+            checks = []
 
+            def both(label, fa, fb, want=None):
+                checks.append((label, fa, fb, want))
+
+            third = op["args"][0] if op.get("args") else None
+            c = self.slots[third["v"]] if isinstance(third, dict) and third["v"] < len(self.slots) else None
+            if c is not None and W.is_url(c):
+                # substitutability: original and twin must behave identically against a third URL
+                self.ctr.inc("pair_basics_with_third_url")
+                if W.shallow(c) != W.shallow(a) and _try(lambda: W.shallow(c)[:2] == W.shallow(a)[:2]) == ["ok", True]:
+                    self.ctr.inc("pair_basics_with_respelled_third_url")
+                both("third_eq", lambda: a == c, lambda: b == c)
+                both("third_eq_rev", lambda: c == a, lambda: c == b)
+                both("third_dict", lambda: {c: 1}.get(a), lambda: {c: 1}.get(b))
+                both("third_set", lambda: len({a, c}), lambda: len({b, c}))
+                both("third_lt", lambda: a < c, lambda: b < c)
+                both("third_ge", lambda: c >= a, lambda: c >= b)
             both("eq", lambda: a == b, lambda: b == a, True)
             both("ne", lambda: a != b, lambda: b != a, False)
             both("hash", lambda: hash(a), lambda: hash(b))
@@ -172,16 +184,16 @@ class Exec:
             both("state", lambda: W.shallow(a), lambda: W.shallow(b))
             both("type", lambda: type(a).__name__, lambda: type(b).__name__)
             both("eq_self", lambda: a == a, lambda: b == b, True)
-            third = op["args"][0] if op.get("args") else None
-            c = self.slots[third["v"]] if isinstance(third, dict) and third["v"] < len(self.slots) else None
-            if c is not None and W.is_url(c):
-                self.ctr.inc("pair_basics_with_third_url")
-                both("third_eq", lambda: a == c, lambda: b == c)
-                both("third_eq_rev", lambda: c == a, lambda: c == b)
-                both("third_lt", lambda: a < c, lambda: b < c)
-                both("third_ge", lambda: c >= a, lambda: c >= b)
-                both("third_dict", lambda: {c: 1}.get(a), lambda: {c: 1}.get(b))
-                both("third_set", lambda: len({a, c}), lambda: len({b, c}))
+            # every comparison warms memos (ordering fills _val, str() splits the netloc, ...): the
+            # order in which they run is part of the history and is therefore seeded
+            oseed = op["args"][1] if len(op.get("args") or []) > 1 else None
+            if oseed is not None:
+                C.run_rng(oseed).shuffle(checks)
+            for label, fa, fb, want in checks:
+                ra = _try(fa)
+                rb = _try(fb)
+                if ra != rb or (want is not None and ra[0] == "ok" and ra[1] != want):
+                    diff[label] = [ra, rb]
         if diff:
             self.violations.append({
                 "kind": "twin_mismatch",
@@ -215,7 +227,7 @@ def _third(rng, ex, o):
     live = ex.live()
     if not live:
         return None
-    eq = W.equal_partners(ex.slots, o)
+    eq = W.equal_partners(ex.slots, o, True) or W.equal_partners(ex.slots, o)
     warm = [j for j in eq if W.memo_snapshot(ex.slots[j])]
     if warm and rng.random() < 0.6:
         eq = warm  # a partner whose memo is already filled (it was read, compared or pickled before)
@@ -257,15 +269,24 @@ def generate_and_run(seed, cfg):
         if not live or r < 0.22:
             op = W.gen_constructor(rng, at, live)
         elif r < 0.22 + knobs["restart_rate"] and restarts < 8:
-            op = W.gen_restart(rng, live if rng.random() < 0.8 or not ex.pairs else [p[1] for p in ex.pairs if ex.slots[p[1]] is not None] or live, ex.slots)
+            cand = live if rng.random() < 0.8 or not ex.pairs else [p[1] for p in ex.pairs if ex.slots[p[1]] is not None] or live
+            if rng.random() < 0.35:
+                # restart a URL that has an equal-but-differently-spelled partner in the pool
+                rich = [i for i in cand if W.equal_partners(ex.slots, i, True)]
+                cand = rich or cand
+            op = W.gen_restart(rng, cand, ex.slots)
             restarts += 1
         elif r < 0.75 and ex.pairs:
             o, t = rng.choice(ex.pairs)
+            if rng.random() < 0.4:
+                richp = [p for p in ex.pairs if W.equal_partners(ex.slots, p[0], True)]
+                if richp:
+                    o, t = rng.choice(richp)
             r2 = rng.random()
             if r2 < 0.62:
                 op = {"op": "pair_read", "on": o, "other": t, "args": [rng.choice(W.ALL_READS), rng.randint(0, 1)]}
             elif r2 < 0.78:
-                op = {"op": "pair_basic", "on": o, "other": t, "args": [_third(rng, ex, o)]}
+                op = {"op": "pair_basic", "on": o, "other": t, "args": [_third(rng, ex, o), rng.getrandbits(30)]}
             elif r2 < 0.9:
                 tmpl = W.gen_derivation(rng, at, [o])
                 if tmpl.get("other") is not None:
@@ -291,7 +312,7 @@ def generate_and_run(seed, cfg):
         o2 = list(W.ALL_READS)
         rng.shuffle(o1)
         rng.shuffle(o2)
-        ex.step({"op": "pair_basic", "on": o, "other": t, "args": [_third(rng, ex, o)]})
+        ex.step({"op": "pair_basic", "on": o, "other": t, "args": [_third(rng, ex, o), rng.getrandbits(30)]})
         ex.step({"op": "pair_deep", "on": o, "other": t, "args": [o1, o2]})
     return finish(ex, seed)
 
